@@ -168,6 +168,10 @@ _V11 = ["X"] + [f"X{i}" for i in range(10)]
 
 # hand-written programs for the corners the report talks about (each runs with every signature variant)
 SPECIAL = [
+    # copy rules whose single body literal is signed: only a positive literal makes a copy
+    "on :- not not latch. latch :- on, power. {power}. #show latch/0.",
+    "on :- not latch. latch :- off, power. off :- not on. {power}. #show latch/0.",
+    "a(X) :- not not b(X). b(X) :- a(X), c(X). {c(X)} :- d(X). #show b/1.",
     # chain of copies: both copy rules vanish, the user keeps b(1)
     "a(X) :- b(X). b(X) :- c(X). d :- a(1). c(1). #show d/0.",
     # repeated head variable: the equality constraint is lost
